@@ -130,6 +130,11 @@ impl SendRequest<RequestMessage<Vec<u8>>> for Up {
                 }
                 authority.push((b"\x04test\x00".to_vec(), T_NS, ttl2, b"\x02ns\x04test\x00".to_vec()));
                 additional.push((b"\x02ns\x04test\x00".to_vec(), T_A, ttl2.saturating_add(7), vec![192, 0, 2, 1]));
+                if dnssec_ok {
+                    // signatures also travel in the additional section
+                    additional.push((b"\x02ns\x04test\x00".to_vec(), T_RRSIG, ttl2.saturating_add(7), rrsig_rdata(T_A, marker)));
+                    authority.push((b"\x04test\x00".to_vec(), T_RRSIG, ttl2, rrsig_rdata(T_NS, marker)));
+                }
             }
             "nodata" | "nxdomain" => {
                 if kind == "nxdomain" {
